@@ -210,6 +210,8 @@ def _name(block, ev):
     m = _ncmp(sig2)
     n = case.get("n", 2)
     e = ev.get("e")
+    if e == "Diverge":
+        return "no-convergence", "NIPALS loop of %s did not converge within %s iterations (component %s)" % (ev.get("site"), ev.get("it"), ev.get("comp"))
     if e == "Abort":
         return "no-convergence" if ev.get("why") == "iteration-budget" else "crash:%s" % ev.get("why"), "fit did not finish (%s)" % ev
     if e == "Oracle":
@@ -254,8 +256,11 @@ def _validate(ctx, chunks, plan_by_seed, label, max_rounds):
 
 
 def _binding(ctx, chunks):
-    blocks = [b for b in tlc.split_blocks(chunks[0]) if any(e["e"] == "Scale" for e in b)][:15]
+    blocks = [b for ch in chunks[:3] for b in tlc.split_blocks(ch) if any(e["e"] == "Scale" for e in b)][:15]
     ev = [e for b in blocks for e in b]
+    if not any(e["e"] == "Axis" for e in ev) and ctx.violations:
+        ctx.note("binding self-test skipped: no completed case in the recording (violations reported above)")
+        return
 
     def corrupt(evs):
         for e in evs:
